@@ -64,6 +64,11 @@ def run(ctx):
                        "%s: a recognised name is not stored into any member (%s)" % (path, tab["orphan_names"]), cfg=cfg, where=where, nontrivial=False)
             ctx.sample({"cfg": cfg, "type": path, "unknown_name": tab["unknown"], "unknown_value_consumed": tab["ignore_consumes"], "known": [m["key"] for m in tab["members"]]}, limit=14)
         ctx.floor("host map types", n, 7, cfg=cfg)
+        # nothing stands between the message bytes and those decoders: the command switch hands the tail after the command
+        # byte directly to cbor_deserialize (a pre-validation pass could reject what the decoder would have skipped)
+        from . import c11
+        cmds = json.load(open(os.path.join(VERIF, "spec", "commands.json")))
+        c11.check_dispatch(ctx, F, cfg, cmds, P="C06")
         # every map visitor that can run while decoding a request is a derive-generated one (whose unknown-member arm was
         # checked above / is index-strict by design): a hand-written visit_map is unaudited and could stop consuming its map early
         r = F.mono_root("ctap2::Request::<'a>::deserialize")
